@@ -422,12 +422,38 @@ def run_case(c, maxdigits):
             why = svc_invalid(obj)
             if why and not c.viol:
                 c.viol = ('c18:service-accepts-invalid:' + why[0], f'Service({p!r}, {ad!r}) constructed: {why[1]}')
+        elif op == 'mksvco':
+            p, h, port = a
+            strs = [h] if isinstance(h, str) else ([str(h)] if isinstance(h, ipaddress.IPv6Address) else [])
+            c.line = f'mksvco {enc_val(p)} {enc_val(h)} {enc_val(port)}' + fmt_table(table_for(strs))
+            try:
+                addr = util.NetAddress(h, port)
+            except VT as e:
+                c.impl = 'addr-' + exc_name(e)
+                return
+            try:
+                obj = util.Service(p, addr)
+            except VT as e:
+                c.impl = exc_name(e)
+                if isinstance(p, str) and o_protocol(p):
+                    c.viol = ('c18:service-rejects-valid', f'Service({p!r}, {addr!r}) raised {exc_name(e)}')
+                return
+            c.impl, c.viol = roundtrip(obj, util.Service, fmt_svc, 'service', f'Service({p!r}, NetAddress({h!r}, {port!r}))')
+            why = svc_invalid(obj)
+            if why and not c.viol:
+                c.viol = ('c18:service-accepts-invalid:' + why[0], f'Service({p!r}, NetAddress(..)) constructed: {why[1]}')
         elif op == 'addrd':
             v, dh, dp = a
             strs = [x for x in (v, dh) if isinstance(x, str)]
             c.line = f'addrd {enc_val(v)} {enc_val(dh)} {enc_val(dp)}' + fmt_table(table_for(strs))
             try:
-                obj = util.NetAddress.from_string(v, default_func=util.NetAddress.default_host_and_port(dh, dp))
+                if dp is None and len(c.line) % 2:
+                    func = util.NetAddress.default_host(dh)         # = default_host_and_port(dh, None)
+                elif dh is None and len(c.line) % 2:
+                    func = util.NetAddress.default_port(dp)         # = default_host_and_port(None, dp)
+                else:
+                    func = util.NetAddress.default_host_and_port(dh, dp)
+                obj = util.NetAddress.from_string(v, default_func=func)
                 c.impl = 'ok ' + fmt_addr(obj)
                 why = addr_invalid(obj)
                 if why:
@@ -700,7 +726,9 @@ def run_sweeps(ctx, res, level):
     md = ctx.facts.get('max_str_digits', sys.get_int_max_str_digits())
     tables = ctx.facts.get('tables') if isinstance(ctx.facts, dict) else None
     contexts = facts_c18.CONTEXTS
-    if not tables or set(tables) != set(contexts):
+    if not tables or set(tables) != set(contexts) or \
+            ctx.facts.get('source_key') != facts_c18.source_key(ctx.repo, contexts):
+        # no tables, or tables of another tree (facts taken from the cache after a failed extraction)
         tables = facts_c18.compute_tables(ctx.repo)
     total = 0
     pending = []
@@ -915,6 +943,8 @@ def generated_cases(rng, n):
             out.append(Case('split', mutate(rng, text)))
         proto = gen_protocol(rng)
         out.append(Case('mksvc', proto, text))
+        if isinstance(p, (int, str)):
+            out.append(Case('mksvco', proto if rng.random() < 0.8 else mutate(rng, proto), h, p))
         out.append(Case('svc', f'{proto}://{text}'))
         out.append(Case('svc', mutate(rng, f'{proto}://{text}')))
         out.append(Case('proto', mutate(rng, proto)))
@@ -928,13 +958,14 @@ def default_cases(rng, n):
     out = []
     hosts = ['example.com', '', None, 'h.x', '1.2.3.4', '::1', 5, 1.5, 'bad host', 'ex.com\n']
     ports = [80, '8080', None, 0, '', 65536, '65535', True, 1.5, 'x']
-    protos = ['tcp', 'SSL', None, '', 5, 1.5, 't,p', 'ws']
+    protos = ['tcp', 'SSL', None, '', 5, 1.5, 't,p', 'ws', '\u212a\u212a', 0, False, []]
     for _ in range(n):
         h = rng.choice(['example.com', 'a.b', '1.2.3.4', '[::1]', '::1', '', '', 'x y', gen_hostname(rng)])
         p = rng.choice(['80', '', '', '65536', '0', '8080', 'x'])
         text = rng.choice([h, f'{h}:{p}', f'{h}:{p}', f':{p}', f'[{h}]', mutate(rng, f'{h}:{p}')])
         out.append(Case('addrd', text, Other(rng.choice(hosts)), Other(rng.choice(ports))))
-        proto = rng.choice(['tcp', 'SSL', 'ws', 't+x', 'Tcp', 'bad proto', ''])
+        proto = rng.choice(['tcp', 'SSL', 'ws', 't+x', 'Tcp', 'bad proto', '', '\u212a\u212a', 'T\u0130', 'tc\u03a3',
+                            'S\u017fL'])
         stext = rng.choice([f'{proto}://{text}', f'{proto}://{text}', proto, text, f'{proto}://', mutate(rng, f'{proto}://{text}')])
         table = {(None, 'r'): rng.choice(protos)}
         keys = {proto, proto.lower(), stext, stext.lower(), stext.split('://', 1)[0], stext.split('://', 1)[0].lower()}
